@@ -214,4 +214,20 @@ def oracle(pystog, case, res):
     b = merged(st)
     if not all(np.array_equal(u, v, equal_nan=True) for u, v in zip(a, b)):
         return "a second merge_data without new data changed the result"
+    # merge, add a further bank, merge again: the result is that of merging all banks at once (the mean counts every stored point once)
+    if len(ds) >= 2 and not case.get("late_window") and not case.get("assign_points"):
+        st, _ = SL.run_sequence(pystog, case["cfg"], ds[:-1])
+        if len(SL.snap(st)["sq"][0]) > 0:
+            st.merge_data()
+        st.add_dataset(SL.info_of(ds[-1]), **SL.call_kw_of(ds[-1], case["cfg"]))
+        st.merge_data()
+        q3, s3, _ = merged(st)
+        if not np.array_equal(q3, q):
+            return "merging, adding the last bank and merging again gives another Q grid than merging all banks at once"
+        with np.errstate(all="ignore"):
+            bad3 = np.abs(s3 - sq) > 1e-9 * (1 + np.abs(sq))
+        if (bad3 & np.isfinite(sq)).any():
+            j = int(np.flatnonzero(bad3 & np.isfinite(sq))[0])
+            return "merged value %r at Q=%r after (merge, add the last bank, merge again) differs from %r obtained by merging all banks at once" % (
+                float(s3[j]), float(q[j]), float(sq[j]))
     return None
